@@ -150,6 +150,30 @@ def check_event_uniqueness(P, r6):
             r6.bad(V(r6.id, f.id, "no-uniqueness-by-identifier", "no uniqueness step keyed on the generated function name: `ev-one` and `ev_one` both become onEvOne"))
 
 
+def syn_method_names(S):
+    """the literals `method_call.method` is tested against in EventParser::handle_method_call when the test is a closed membership test
+    (matches!, CONST.contains, a membership helper over a constant table): frozenset, empty when there is no such test"""
+    fn = S.fn("EventParser", "handle_method_call")
+    if fn is None or fn.body is None:
+        return frozenset()
+    from srclib import literal_set_guard
+
+    def conjuncts(e):
+        while isinstance(e, dict) and e.get("k") == "paren":
+            e = e["expr"]
+        if isinstance(e, dict) and e.get("k") == "binary" and e.get("op") == "&&":
+            return conjuncts(e["left"] if "left" in e else e.get("l")) + conjuncts(e["right"] if "right" in e else e.get("r"))
+        return [e] if isinstance(e, dict) else []
+    out = set()
+    for x in walk_block(fn.body):
+        if x.get("k") == "if" and isinstance(x.get("cond"), dict):
+            for cj in conjuncts(x["cond"]):
+                g = literal_set_guard(S, cj)
+                if g is not None and re.search(r"\.method\b", g[0]):
+                    out |= set(g[1])
+    return frozenset(out)
+
+
 def find_type_namer(S):
     """the function that turns the syn::Type of a parameter / annotated binding into the text kept in the event parser's symbol table:
     EventParser::extract_type_name, or — after a move / rename — the one new function `(&syn::Type) -> String` of the analysis modules"""
@@ -525,6 +549,13 @@ def check(ctx):
                         o, outcome = f.cond_struct(bb, lab)
                         if o[0] == "call" and o[1].name in ("eq", "ne") and (lit_of(o[1], 1) in ("emit", "emit_to") or lit_of(o[1], 0) in ("emit", "emit_to")):
                             continue
+                        if o[0] == "call" and o[1].name == "any" and outcome == "true" and syn_method_names(S) == {"emit", "emit_to"}:
+                            # the same test through a membership helper over a constant table (`ident_in(&call.method, &EMIT_METHODS)`, spliced
+                            # in): the closure handed to any() compares the call's method identifier
+                            clo = f.origin(o[1].args[1]) if len(o[1].args) > 1 else ("?",)
+                            caps = clo[1].get("ops", []) if clo[0] == "aggr" and isinstance(clo[1], dict) else []
+                            if any("ExprMethodCall.method" in f.describe_origin(f.origin(a_), deep=3) for a_ in caps):
+                                continue
                         if outcome == "MethodCall" or (folded and o[0] == "multi" and outcome in ("true", "false") and False):
                             continue            # (being in the method-call arm of the expression walk at all)
                         if o[0] == "call" and short_path(o[1].best) == "EventParser::is_likely_tauri_emitter" and outcome == "true" \
@@ -636,6 +667,8 @@ def check(ctx):
                                 s_ = strs[0] if len(strs) == 1 else None
                         if s_ is not None and "ExprMethodCall.method" in f.describe_origin(f.origin(c.args[1 - i]), deep=3):
                             names.add(s_)
+        if not names:
+            names = set(syn_method_names(S))    # the method test written as membership in a constant table
         if names == {"emit", "emit_to"}:
             r3.ok("methods: emit, emit_to")
         else:
